@@ -7,7 +7,7 @@ from .. import cast, sym, lin
 from .common import distinct_enums
 from ..sym import C, fmt, linearize as L
 from ..lin import Lin
-from .regs import Regs, T, strip_cast, size_facts, scan_rule, for_headers, touch_helpers, callback_guard
+from .regs import Regs, T, strip_cast, size_facts, scan_rule, for_headers, touch_helpers, callback_guard, config_bits_rule, config_bits_fixture
 
 ADDR, N, BUF = ('v', 'addr'), ('v', 'n'), ('v', 'buf')
 
@@ -685,6 +685,9 @@ def run(ck):
     walker(ck, R, 'register_block_write_unsafe', 'C02.d', 'write')
     rule_e(ck, R)
     touch_helpers(R, 'C02.e', ('register_touch', 'register_was_touched'))
+    ck.rule('C02.h', 'an area stays writeable / read-only as configured: no store into RegisterArea.flags changes REG_AF_WRITEABLE (the refusal of a block that touches a read-only area rests on that bit)')
+    config_bits_rule(R, 'C02.h', ('REG_AF_WRITEABLE',), 'a block write into an area configured read-only is accepted from then on (or a writeable area refuses)')
+    config_bits_fixture(R, 'C02.h')
     callback_guard(R, 'C02.b', 'ra_malformed_write', inline={'reg_read_entry'})
     from .common import reevaluate
     reevaluate(ck, 'C02.g', 'c04', lambda r, k: r == 'C04.a' and k.startswith('flags:'),
